@@ -360,7 +360,12 @@ pub fn gen_layers(src: &mut Src, share_numbers: bool) -> Vec<RLayer> {
         let mut purposes: Vec<(i16, RPurpose)> = vec![];
         let mut pnums: Vec<i16> = vec![];
         let mut add = |src: &mut Src, p: RPurpose, purposes: &mut Vec<(i16, RPurpose)>| {
-            let mut k = src.below(60) as i16;
+            // (purpose numbers are 16-bit numbers like layer numbers: now and then negative, or the largest)
+            let mut k = match src.below(12) {
+                0 => -1 - src.below(60) as i16,
+                1 => *src.pick(&[i16::MIN, -32000, 32700]),
+                _ => src.below(60) as i16,
+            };
             // a purpose may carry the number of its own layer (pin 16/16 beside drawing 16/0)
             if src.prob(1, 6) && !pnums.contains(&num) {
                 k = num;
@@ -454,6 +459,18 @@ pub fn gen_rawlib(src: &mut Src, o: &RawGenOpts) -> RLib {
                     let contact = ((j.0 + sx * a, j.1 + sy * a), (j.0 + sx * b, j.1 + sy * b));
                     shapes.push(RShape { layer, purpose, geom: RGeom::Path(wire, w as usize), net: if src.bool() { Some("wire_l".to_string()) } else { None } });
                     shapes.push(RShape { layer, purpose, geom: RGeom::Rect(contact.0, contact.1), net: Some("ct".to_string()) });
+                }
+            }
+            // a pin drawn on a strap: a small rectangle with a net of its own inside a large one on the same layer,
+            // the strap listed first, the pin clear of the strap's centre (each keeps the name it had)
+            if o.contact_near_bend && src.prob(1, 8) {
+                if let Some(layer) = (0..layers.len()).find(|l| layers[*l].label_num().is_some()) {
+                    let cand: Vec<usize> = (0..layers[layer].purposes.len()).filter(|i| layers[layer].purposes[*i].1 != RPurpose::Label).collect();
+                    let purpose = cand[src.index(cand.len())];
+                    let (x0, y0) = (6000 + 300 * src.i64_in(0, 3), 7000);
+                    let dx = if src.bool() { 70 } else { 12 };
+                    shapes.push(RShape { layer, purpose, geom: RGeom::Rect((x0, y0), (x0 + 100, y0 + 20)), net: Some("strap".to_string()) });
+                    shapes.push(RShape { layer, purpose, geom: RGeom::Rect((x0 + dx, y0 + 4), (x0 + dx + 10, y0 + 12)), net: Some("strap_sense".to_string()) });
                 }
             }
             // a die-sized strip far from everything else: both corners are 32-bit coordinates, their
